@@ -289,7 +289,9 @@ def check_property(pid, tier, seed):
             if fl["item"] is None:
                 failed.append(dict(fl, owned_as="lemma"))
             elif fl["item"] in owned_items:
-                if fl["class"] == "rlimit":
+                if any(row["item"] == fl["item"] and row.get("soft") for row in r["table"]):
+                    undecided.append("soft obligation %s/%s failed (body of a shape without a proof recipe): %s" % (r["unit"], fl["item"], fl["message"]))
+                elif fl["class"] == "rlimit":
                     undecided.append("rlimit on %s/%s: %s" % (r["unit"], fl["item"], fl["message"]))
                 elif fl["class"] in owned_items[fl["item"]] or "all" in owned_items[fl["item"]]:
                     failed.append(fl)
